@@ -23,6 +23,41 @@ def clean():
     return r.stdout.strip() == ''
 
 
+def run_isolated(d, checks, tier):
+    """development mode: the change is applied in a scratch worktree of /repo's HEAD and the checks are pointed at it
+    (VERIF_REPO), evidence and replays go to build/mut/<id>/ - /repo itself is not touched"""
+    d = d.rstrip('/')
+    mid = os.path.basename(d)
+    meta_p = os.path.join(ROOT, d, 'meta.json')
+    meta = json.load(open(meta_p)) if os.path.exists(meta_p) else {}
+    if not checks:
+        checks = meta.get('checks') or [meta.get('property')]
+    wt = '/tmp/mutrepo_%s_%d' % (mid, os.getpid())
+    out = os.path.join(ROOT, 'build', 'mut', mid)
+    os.makedirs(out, exist_ok=True)
+    sh(['git', '-C', REPO, 'worktree', 'add', '--detach', wt, 'HEAD'])
+    res = {'tier': tier, 'mode': 'isolated worktree', 'checks': {}}
+    try:
+        a = sh(['git', '-C', wt, 'apply', os.path.join(ROOT, d, 'patch.diff')])
+        if a.returncode != 0:
+            print('patch does not apply:', a.stdout)
+            return 2
+        env = dict(os.environ, VERIF_REPO=wt, VERIF_OUT=out)
+        for c in checks:
+            t = time.time()
+            r = sh([sys.executable, os.path.join(ROOT, 'verif.py'), 'check', c, '--tier', tier], cwd=ROOT, env=env)
+            sigs = [l.strip() for l in r.stdout.splitlines() if l.strip().startswith('signature:')]
+            res['checks'][c] = {'exit': r.returncode, 'wall_s': round(time.time() - t, 1), 'violations': r.stdout.count('VIOLATION property='),
+                                'signatures': sorted(set(sigs))[:12], 'tail': r.stdout.strip().splitlines()[-1:]}
+            print('%s %s: exit %d, %d violation lines, %.0fs' % (mid, c, r.returncode, res['checks'][c]['violations'], time.time() - t), flush=True)
+    finally:
+        sh(['git', '-C', REPO, 'worktree', 'remove', '--force', wt])
+    res['detected_by'] = [c for c, v in res['checks'].items() if v['exit'] == 1 and v['violations'] > 0]
+    with open(os.path.join(out, 'result_%s.json' % tier), 'w') as fh:
+        json.dump(res, fh, indent=1)
+    return 0
+
+
 def run_one(d, checks, tier):
     d = d.rstrip('/')
     patch = os.path.join(ROOT, d, 'patch.diff')
@@ -64,6 +99,8 @@ def main():
         checks = a[a.index('--checks') + 1].split(',')
     if a and a[0] == 'run':
         return run_one(a[1], checks, tier)
+    if a and a[0] == 'iso':
+        return run_isolated(a[1], checks, tier)
     if a and a[0] == 'all':
         sd = os.path.join(ROOT, 'seeded')
         for d in sorted(os.listdir(sd)):
